@@ -1,6 +1,7 @@
 import ZipVerif.Lemmas.WLGoodP
-import ZipVerif.Lemmas.AppendClosed
+import ZipVerif.Lemmas.AppendClosedZ
 import ZipVerif.Props.C01
+import ZipVerif.Props.C02Full
 /-
 C13 (layout level) — appending to an existing archive.
 
@@ -55,7 +56,10 @@ theorem append_base (l : Layout) (hF : l.Fits) (hR : l.Readable) (hS : NoFalseSi
     rw [h2, h3, build_length]; unfold Layout.eocdPos; omega
   refine ⟨s, d, h1, h2, h3, ?_, ?_⟩
   · refine inv_idle h8 h9 h10 h11 ?_
-    rw [h6]; exact viewList_timeOk _ _ _ _
+    rw [h6]
+    intro f hf
+    obtain ⟨g, hg, rfl⟩ := List.mem_map.mp hf
+    exact viewList_timeOk _ _ _ _ g hg
   · have := lay_idle_intro hle h4 h5 h8 h9 h10 h12
     rw [h7, h2, h3] at this
     exact this
@@ -84,6 +88,52 @@ theorem append_emits_layout (ext : WExt) (l : Layout) (hF : l.Fits) (hR : l.Read
   refine ⟨s0, d0, h1, ?_⟩
   intro es gap c hg v s' d' hfin
   obtain ⟨k1, k2, k3, k4, k5, k6⟩ := C01.writer_emits_layout ext calls hc ha _ _ s0 d0 hI hL es gap c hg
+    v s' d' hfin
+  refine ⟨k2, k1, ?_, k5, k6⟩
+  rw [List.length_drop]
+  omega
+
+/-! ## 2b. Level 2: the whole call alphabet after `new_append` -/
+
+/-- the Level-2 ghost a writer opened with `new_append` on `build l` starts from -/
+def baseGhost2 (l : Layout) : Ghost2 := .idle (appendNormAll l) (appendGap l) l.comment
+
+/-- **`append_emits_layout_full`** — `append_emits_layout` for scripts over the WHOLE call alphabet
+(`Level2`: extra-data mode, aligned files, ZipCrypto, …), for a `ReadableZ` (in particular `Readable`)
+base: after `new_append` on `build l`, the script and a successful `finish`, the sink is
+`build (layoutOf es gap c stale)` with `es`, `gap`, `c` computed by the Level-2 ghost fold started at
+`baseGhost2 l`. -/
+theorem append_emits_layout_full (ext : WExt) (l : Layout) (hF : l.Fits) (hR : l.ReadableZ)
+    (hS : NoFalseSig l) (ht : l.trailing = [] ∨ l.needs64 = false)
+    (hall : ∀ e ∈ l.entries, AppendClean e ∧ e.centralExtra.length + 56 ≤ 0xFFFF)
+    (calls : List Call) (hc : ∀ c ∈ calls, Level2 c) :
+    ∃ s0 d0, newAppend.runPure (Dev.ofBytes (build l)) = (.ok s0, d0) ∧
+      ∀ (es : List Spec.Zip.Entry) (gap c : Bytes),
+        (ghostOf2 ext (baseGhost2 l) calls (runCalls ext calls s0 none d0).1).close ext = some (es, gap, c) →
+      ∀ (v : Option Nat) (s' : WState) (d' : Dev),
+        step ext .finish (runCalls ext calls s0 none d0).2.1 none (runCalls ext calls s0 none d0).2.2 =
+          (.ok (.ok v, s'), d') →
+        d'.buf = build (layoutOf es gap c (d'.buf.drop d'.pos)) ∧
+        d'.buf.take d'.pos = build (layoutOf es gap c []) ∧
+        (d'.buf.drop d'.pos).length ≤ (build l).length - l.cdStart ∧
+        c.length ≤ 65535 ∧ s'.inner = .closed := by
+  obtain ⟨s, d, h1, h2, h3, h4, h5, h6, h7, h8, h9, h10, h11, h12⟩ :=
+    append_open_is_base_stateZ l hF hR hS ht hall
+  have hle : d.pos ≤ d.buf.length := by
+    rw [h2, h3, build_length]; unfold Layout.eocdPos; omega
+  have hI : Inv s := by
+    refine inv_idle h8 h9 h10 h11 ?_
+    rw [h6]
+    intro f hf
+    obtain ⟨g, hg, rfl⟩ := List.mem_map.mp hf
+    exact viewList_timeOk _ _ _ _ g hg
+  have hL : Lay2 ((build l).length - l.cdStart) (baseGhost2 l) s d := by
+    have := lay2_idle_intro hle h4 h5 h8 h9 h10 h11 h12
+    rw [h7, h2, h3] at this
+    exact this
+  refine ⟨s, d, h1, ?_⟩
+  intro es gap c hg v s' d' hfin
+  obtain ⟨k1, k2, k3, k4, k5, k6⟩ := C02Full.writer_emits_layout_full ext calls hc _ _ s d hI hL es gap c hg
     v s' d' hfin
   refine ⟨k2, k1, ?_, k5, k6⟩
   rw [List.length_drop]
@@ -180,6 +230,78 @@ theorem append_read_back (es : List Spec.Zip.Entry) (gap c stale : Bytes) (d' : 
     obtain ⟨off, d2, _, h, _⟩ := C03.reader_entry_raw (layoutOf es gap c stale) hF i e he d1 h2
     exact ⟨_, d2, h⟩
 
+/-! ## 4b. `Readable` of the appended archive, discharged (the point of the D20 repair)
+
+`new_append` drops the inherited ZIP64 extra records (`strip_zip64_extra_field`), so the normalised old
+entries are `Readable` whatever ZIP64 records the base carried — for a `Readable` base and even for a
+`ReadableZ` one (redundant ZIP64 records in the foreign extra data) — with no condition on sizes or
+offsets; the entries the writer adds are `Readable` as before. -/
+
+/-- what is asked of the record `start_entry` pushes: no extra data yet, not WinZip-AES -/
+def ZRec (f : FileData) : Prop := f.extraField = [] ∧ f.method.toU16 ≠ 99
+
+theorem zSpec : GoodSpec Spec.Zip.Entry.Readable ZRec :=
+  ⟨fun f dp gap data lv h => ⟨by
+      show ExtraOk f.extraField
+      rw [h.1]; decide, h.2⟩,
+   fun _ _ _ h => h⟩
+
+/-- a decidable sufficient condition on a call: the method it asks for is not code 99 -/
+def ZCall : Call → Prop
+  | .startFile _ o => o.method.toU16 ≠ 99
+  | .rawCopy src _ _ => src.method.toU16 ≠ 99
+  | _ => True
+
+instance : DecidablePred ZCall := fun c => by cases c <;> unfold ZCall <;> infer_instance
+
+theorem zCall_callQ {c : Call} (h : ZCall c) : CallQ ZRec c := by
+  cases c with
+  | startFile n o => exact fun _ _ => ⟨rfl, h⟩
+  | addDirectory n o => exact fun _ _ => ⟨rfl, show (0 : UInt16) ≠ 99 by decide⟩
+  | addSymlink n t o => exact fun _ _ => ⟨rfl, show (0 : UInt16) ≠ 99 by decide⟩
+  | rawCopy src raw n => exact fun _ _ => ⟨rfl, h⟩
+  | _ => trivial
+
+/-- **Every entry of the appended archive is `Readable`** for a `ReadableZ` (in particular: `Readable`)
+base — ZIP64 entries included — and calls that do not ask for method 99. -/
+theorem append_entries_readable (ext : WExt) (l : Layout) (hR : l.ReadableZ)
+    (calls : List Call) (hz : ∀ c ∈ calls, ZCall c) (outs : List (Out (Option Nat)))
+    (es : List Spec.Zip.Entry) (gap c : Bytes)
+    (hg : (ghostOf ext (baseGhost l) calls outs).close ext = some (es, gap, c)) :
+    ∀ e ∈ es, e.Readable := by
+  have h0 : GoodP Spec.Zip.Entry.Readable ZRec (baseGhost l) := appendNormAll_readable l hR
+  exact (goodP_run zSpec ext calls outs _ (fun c hc => zCall_callQ (hz c hc)) h0).close zSpec hg
+
+/-- … hence the appended archive is a `Readable` layout. -/
+theorem appended_readable (ext : WExt) (l : Layout) (hR : l.ReadableZ)
+    (calls : List Call) (hz : ∀ c ∈ calls, ZCall c) (outs : List (Out (Option Nat)))
+    (es : List Spec.Zip.Entry) (gap c stale : Bytes)
+    (hg : (ghostOf ext (baseGhost l) calls outs).close ext = some (es, gap, c)) :
+    (layoutOf es gap c stale).Readable :=
+  append_entries_readable ext l hR calls hz outs es gap c hg
+
+/-- **`append_read_back`, `Readable` discharged.**  For any `ReadableZ` base (so: any `Readable` base,
+whatever ZIP64 records it has), the appended archive is read back by `ZipArchive::new` as the views of
+its entries and `by_index_raw` returns their stored bytes; what is left to check on the result is only
+`Fits` and `NoFalseSig`. -/
+theorem append_read_back_discharged (ext : WExt) (l : Layout) (hR : l.ReadableZ)
+    (calls : List Call) (hz : ∀ c ∈ calls, ZCall c) (outs : List (Out (Option Nat)))
+    (es : List Spec.Zip.Entry) (gap c stale : Bytes)
+    (hg : (ghostOf ext (baseGhost l) calls outs).close ext = some (es, gap, c))
+    (d' : Dev) (hbuf : d'.buf = build (layoutOf es gap c stale))
+    (hF : (layoutOf es gap c stale).Fits) (hS : NoFalseSig (layoutOf es gap c stale))
+    (ht : stale = [] ∨ (layoutOf es gap c stale).needs64 = false) :
+    ∃ d1, openArchive.runPure (Dev.ofBytes d'.buf) = (.ok (archiveOf (layoutOf es gap c stale)), d1) ∧
+      d1.buf = build (layoutOf es gap c stale) ∧
+      (archiveOf (layoutOf es gap c stale)).offset = 0 ∧
+      (archiveOf (layoutOf es gap c stale)).comment = c ∧
+      (archiveOf (layoutOf es gap c stale)).files = viewOf (layoutOf es gap c stale) ∧
+      (∀ (i : Nat) e, es[i]? = some e → ∃ off chs,
+        (archiveOf (layoutOf es gap c stale)).files[i]? = some (viewEntry e off 0 chs)) ∧
+      (∀ (i : Nat) e, es[i]? = some e → ∃ ds d2,
+        (byIndexRaw (archiveOf (layoutOf es gap c stale)) i).runPure d1 = (.ok (ds, e.data), d2)) :=
+  append_read_back es gap c stale d' hbuf hF (appended_readable ext l hR calls hz outs es gap c stale hg) hS ht
+
 /-! ## 5. Iteration: the result can be appended to again -/
 
 theorem appendNorm_clean (e : Spec.Zip.Entry) (off pre : Nat) (h : AppendClean e) :
@@ -236,6 +358,18 @@ theorem append_iterates (ext : WExt) (l : Layout) (hall : ∀ e ∈ l.entries, A
   have h0 : GoodP AppendClean (fun f => (Spec.utf8Strict f.fileName).isSome = true) (baseGhost l) :=
     appendNormAll_clean l hall
   exact (goodP_run hS ext calls outs _ hu h0).close hS hg
+
+/-- **`append_iterates`, with `Readable`**: the result is again a layout of `AppendClean`, `Readable`
+entries — `append_base` applies to it once more given only `Fits` / `NoFalseSig` and small extra fields;
+ZIP64 entries of the base are no obstacle (D20). -/
+theorem append_iterates_readable (ext : WExt) (l : Layout) (hR : l.ReadableZ)
+    (hall : ∀ e ∈ l.entries, AppendClean e)
+    (calls : List Call) (hu : ∀ c ∈ calls, Utf8Names c) (hz : ∀ c ∈ calls, ZCall c)
+    (outs : List (Out (Option Nat))) (es : List Spec.Zip.Entry) (gap c stale : Bytes)
+    (hg : (ghostOf ext (baseGhost l) calls outs).close ext = some (es, gap, c)) :
+    (∀ e ∈ es, AppendClean e) ∧ (layoutOf es gap c stale).Readable :=
+  ⟨append_iterates ext l hall calls hu outs es gap c hg,
+   appended_readable ext l hR calls hz outs es gap c stale hg⟩
 
 /-! ## 6. Appending nothing -/
 
